@@ -14,6 +14,7 @@ A mismatch between design model and code is DRIFT (evidence only); verdicts come
 """
 import json
 import os
+import re
 import time
 from concurrent.futures import ThreadPoolExecutor
 
@@ -40,7 +41,7 @@ def ident(c):
 NAMES = [b'r', b'ns:el', b'A', b'x-y.z_1', b'\xc3\xa9l']
 TEXT_WORDS = [b'x', b'w&amp;z', b'&lt;tag', b'a&gt;b', b'&#65;', b'caf\xc3\xa9', b'&#x20AC;', b'&#8364;',
               b'it&apos;s', b'&quot;q&quot;', b'&#38;', b'&#60;', b'a]b', b'a]]b', b'&#x26;#38;', b'a=b;c', b'a>b']
-CDATA_WORDS = [b'x', b'a<b', b'p&q', b'<<<<<', b']', b'a]]b', b'a>', b'&amp;', b'<!--n-->', b'\xc3\xa9']
+CDATA_WORDS = [b'x', b'a<b', b'p&q', b'<<<<<', b'a]b', b'a]]b', b'a>', b'&amp;', b'<!--n-->', b'\xc3\xa9']
 PIS = [b'<?p?>', b'<?p a="1"?>', b'<?p a="1" b=\'2\'?>', b'<?xml-stylesheet href="s.xsl" type="text/xsl"?>',
        b'<?p  a = "1" ?>', b'<?p-q.r x=\'"\'?>']
 COMMENTS = [b'<!--c-->', b'<!-- a - b -->', b'<!---->', b'<!--<x>&amp;&-->', b'<!--\n-->']
@@ -166,6 +167,16 @@ def decorate(tk, rnd, attr_pool):
     return doc
 
 
+def has_cdata_end(doc):
+    """syntactic detector of known constructs K7/K8: with comments and CDATA brackets taken away and references to
+    '>' spelled out, the document contains "]]>" (over-approximation: safe to leave such documents out)"""
+    s = re.sub(rb'<!--.*?-->', b'', doc, flags=re.S)
+    s = s.replace(b'<![CDATA[', b'').replace(b']]>', b'')
+    for r in (b'&gt;', b'&#62;', b'&#062;', b'&#x3e;', b'&#x3E;'):
+        s = s.replace(r, b'>')
+    return b']]>' in s
+
+
 RULE = ('a case is (KeepWhitespace, document bytes). Documents: every complete behaviour of the design models '
         'XmlMachine (all well-formed token streams up to the length bound over its vocabulary of tags, text kinds, '
         'CDATA kinds, comment, PI, DOCTYPE; both KeepWhitespace values) and XmlAttr (all attribute values up to the '
@@ -189,7 +200,7 @@ def generate(ctx):
     cases = []
     seen = set()
     stats = dict(mc_docs=0, mc_known_skipped=0, attr_docs=0, attr_known_skipped=0, sim_docs=0, sim_known_skipped=0,
-                 decorated=0, repo_tests=0, corpus=0, pinned=0)
+                 decorated=0, decorated_known_skipped=0, repo_tests=0, corpus=0, pinned=0)
 
     def add(keep, data, src, pred=None):
         k = (bool(keep), bytes(data))
@@ -291,7 +302,11 @@ def generate(ctx):
     ndec = 6000 if quick else 120000
     for i in range(ndec):
         keep, tk = pool_tk[ctx.rnd.randrange(len(pool_tk))]
-        if add(keep, decorate(tk, ctx.rnd, attr_pool), 'decorated'):
+        doc = decorate(tk, ctx.rnd, attr_pool)
+        if has_cdata_end(doc):          # re-rendering must not introduce known construct K7/K8
+            stats['decorated_known_skipped'] += 1
+            continue
+        if add(keep, doc, 'decorated'):
             stats['decorated'] += 1
     # the repository's own inputs
     for row in vlib.test_inputs(ctx, 'xml'):
@@ -361,6 +376,11 @@ def validate(ctx, metas, lines):
         accepted += acc
         for j, w in rej:
             why.setdefault(part[j], []).append(w)
+        tv = os.path.join(ctx.scratch, 'tv')           # shard files are not needed any more (keeps scratch small)
+        if os.path.isdir(tv) and not os.environ.get('VERIF_KEEP'):
+            for f in os.listdir(tv):
+                if f.startswith('C06Trace-'):
+                    os.remove(os.path.join(tv, f))
     return accepted, why
 
 
